@@ -944,7 +944,9 @@ class IoChan(Engine):
                                                 f"without an error", cls="refuses:" + exp["why"], **tags)
         # returned: every entry must be either 0 or the value its unique complete line says
         # (a torn value like 5012.75 -> 5 is exempt: at most the entries of one row may deviate)
-        K = exp.get("K") or {}
+        if exp.get("K") is None:
+            return  # the table's structure is already outside what the layout promises (e.g. a renamed item column): nothing to compare with
+        K = exp["K"]
         got = result.values
         deviating_rows = 0
         wrong = []
